@@ -711,6 +711,18 @@ func (m *monitor) after(n *node, desc string) {
 				m.nhit(n, "C05", "subscription-of-an-earlier-height", fmt.Sprintf("node %d after %s is subscribed for transactions without having subscribed in this call", n.id, desc))
 			}
 		}
+		// the validator list is the one the application reports for this height
+		if exp := n.expectedValidators(d.BlockIndex); exp != nil {
+			m.tick("C06")
+			same := len(exp) == len(d.Validators)
+			for i := 0; same && i < len(exp); i++ {
+				same = exp[i] == d.Validators[i]
+			}
+			if !same {
+				m.nhit(n, "C06", "validator-list-of-an-earlier-height", fmt.Sprintf("node %d after %s works with %d validators, the application reports %d for height %d", n.id, desc, len(d.Validators), len(exp), d.BlockIndex))
+				m.nhit(n, "C05", "validator-list-of-an-earlier-height", fmt.Sprintf("node %d after %s works with %d validators, the application reports %d for height %d", n.id, desc, len(d.Validators), len(exp), d.BlockIndex))
+			}
+		}
 		// every per-validator table is taken afresh for the validator list of this height: one slot per validator
 		for name, l := range map[string]int{"PreparationPayloads": len(d.PreparationPayloads), "PreCommitPayloads": len(d.PreCommitPayloads),
 			"CommitPayloads": len(d.CommitPayloads), "ChangeViewPayloads": len(d.ChangeViewPayloads),
@@ -758,8 +770,13 @@ func (m *monitor) after(n *node, desc string) {
 			}
 		}
 	}
-	// C10
-	if n.honestValidator() && !vs.BlockProcessed {
+	// C10: "undecided" is what the application knows - its ledger is still one block short of the height the node works on
+	// (ProcessBlock has not succeeded for it) - not the library's own flag
+	undecided := d.BlockIndex == n.height+1
+	if n.honestValidator() && undecided && vs.BlockProcessed {
+		m.nhit(n, "C10", "decided-flag-without-an-accepted-block", fmt.Sprintf("node %d at (%d,%d) after [%s] regards the height as decided, but no block of that height was accepted by ProcessBlock", n.id, d.BlockIndex, d.ViewNumber, desc))
+	}
+	if n.honestValidator() && undecided {
 		m.tick("C10")
 		if !n.tm.armed || n.tm.h != d.BlockIndex || n.tm.v != d.ViewNumber {
 			m.nhit(n, "C10", "timer-not-armed", fmt.Sprintf("node %d undecided at (%d,%d) after [%s] but timer armed=%v for (%d,%d)", n.id, d.BlockIndex, d.ViewNumber, desc, n.tm.armed, n.tm.h, n.tm.v))
